@@ -249,3 +249,9 @@ def _(ctx):
     P = [1, 1, -1, -1]
     ctx.prove('Chi.is_minus_PYP', ax, z3.And(*[z3real(Yf.get(i, j)) == -P[i] * P[j] * z3real(Y.get(i, j)) for i in range(4) for j in range(4)]), check_vacuity=False)
     ctx.merge_rules(it)
+
+
+def fidelity(tier, seed):
+    """A-FRONT guard: MSSM a_mu and mass-matrix functions, interpreter (float mode) vs compiled real code on real spectra"""
+    from gm2v import fidelity as _fid
+    return _fid.mssm_model_guard(seed=seed)
